@@ -1,0 +1,16 @@
+//go:build verif
+
+package cluster
+
+import "github.com/semafind/semadb/models"
+
+// Verification hooks (build tag `verif` only): thin exported wrappers around unexported
+// placement code so that the correspondence harness can drive the real functions.
+
+// VerifShardInfo is the unexported shardInfo (fields Id, Size, PointCount).
+type VerifShardInfo = shardInfo
+
+// VerifDistributePoints calls distributePoints unchanged.
+func VerifDistributePoints(shards []VerifShardInfo, points []models.Point, maxShardSize, maxShardPointCount int64, createShardFn func() (string, error)) (map[string][2]int, error) {
+	return distributePoints(shards, points, maxShardSize, maxShardPointCount, createShardFn)
+}
